@@ -390,10 +390,22 @@ func jSnap(s *pb.Snapshot) JSnap {
 	return JSnap{Has: md.GetIndex() != 0, Index: md.GetIndex(), Term: md.GetTerm(), Conf: jConf(md.GetConfState())}
 }
 
+// jid maps the local storage-thread targets (huge uint64 constants) to the small
+// ids the specification uses: 1001 = LocalAppendThread, 1002 = LocalApplyThread.
+func jid(u uint64) uint64 {
+	switch u {
+	case raft.LocalAppendThread:
+		return 1001
+	case raft.LocalApplyThread:
+		return 1002
+	}
+	return u
+}
+
 func jMsg(m *pb.Message) JMsg {
 	jm := JMsg{
 		Type: strings.TrimPrefix(m.GetType().String(), "Msg"),
-		From: m.GetFrom(), To: m.GetTo(), Term: m.GetTerm(), LogTerm: m.GetLogTerm(),
+		From: jid(m.GetFrom()), To: jid(m.GetTo()), Term: m.GetTerm(), LogTerm: m.GetLogTerm(),
 		Index: m.GetIndex(), Commit: m.GetCommit(), Vote: m.GetVote(),
 		Reject: m.GetReject(), Hint: m.GetRejectHint(),
 		Entries: jEntries(m.GetEntries()), Snap: jSnap(m.GetSnapshot()),
